@@ -10,6 +10,8 @@ COMMON_TB = [
 IR_RULE = 'flattened-IR documents as the reducer produces them (1-3 controllers x 1-4 routes, 5 verbs, prefixes with/without leading, doubled and trailing slashes and {params}, hidden/deprecated mix, 0-3 security schemes with method/controller/default levels, all parameter locations, pointers, enums/aliases/structs/slices/maps, validator strings over the converter rule table, (T,error)/error/custom-error returns, @Response/@ErrorResponse codes), 20% perturbed (undeclared scheme, missing path binding), pushed through the real swagen.GenerateSpec (3.0.0 and 3.1.0) and routes.GenerateRoutes'
 IR_TB = ['model Gleece/Model/IR.lean + Router.lean are hand-written from the two emitters and the five template sets; tie = the `ir` correspondence stream (model projections vs the same projections of the real JSON documents and of the go/ast extraction of the rendered routes file)', 'kin-openapi / libopenapi (document validation, JSON rendering) and raymond (Handlebars) are exercised, not modelled']
 
+PROJ_RULE = 'abstract projects printed as real Go source + gleece.config.json into a scratch module (1-3 controllers over files a.go/b.go/c.go and packages ctl/other, 1-4 methods each, all parameter locations, pointers, enums/aliases/structs, 0-2 security schemes at method/controller/default level, enforce flag) and run in-process through the real cmd.LoadGleeceConfig -> pipeline.GenerateGraph/Validate/GenerateIntermediate -> swagen/routes; half of the projects carry one or two perturbations (drop / duplicate / rename / retarget / retype an annotation or parameter, extra or missing {url} parameter, bad alias, second body, body+form, bad results, invalid/unsupported verb, unknown annotation, bad status code)'
+
 PROPS = {
     "C15": dict(
         streams=[dict(mode="paths", quick=30000, thorough=300000, workers=8)],
@@ -118,5 +120,14 @@ PROPS = {
         trusted_base=COMMON_TB + IR_TB + ["translator harness/cmd/vh/extract_rules.go (go/ast over both converters)"],
         partial=["crash-freedom of go/packages, raymond, kin-openapi, libopenapi and the AST visitors on arbitrary Go source cannot be proved here; it is explored (ir stream with bad tags; CLI stream)"],
         assumptions=[],
+    ),
+    "C10": dict(
+        streams=[dict(mode="proj", quick=84, thorough=2400, workers=14, driver_workers=4, timeout=1800)],
+        rule=PROJ_RULE + "; the multiset of (controller, receiver, code, severity) of the real diagnostics is compared with the model's and the property's `wellLinked` is evaluated against the real verdict for every route; non-trivial = at least one route; distinct = distinct project",
+        trusted_base=COMMON_TB + ["model Gleece/Model/Validate.lean is hand-written; the annotation table and HTTP tables are regenerated from the harness build of /repo (configuration.ValidatorConfigMap, definitions.Get*); tie = exact multiset equality of diagnostics on every generated project",
+                                  "the project printer (harness/cmd/vh/proj.go) and go/packages (type loading, error-embedding check)"],
+        partial=["complete direction (well-linked => accepted) and the full bijection are evaluated on every generated route, not proved",
+                 "findings C10-F1 (parameter named like another annotation's value -> hard error) and C10-F2 (controller-prefix {names} never linked; unaliased @Path outside the route never reported)"],
+        assumptions=["no user type embeds error in generated projects (errorEmbedders = [])"],
     ),
 }
